@@ -32,14 +32,19 @@ Inductive skind :=
   | KSinkPacker            (* Packer / BlobCopier / TreeModifier / Rewriter / Archiver ::new: writes packs and index files *)
   | KSinkIndexer.          (* indexer.add / add_remove / add_with: writes index files *)
 
-Definition cond := (string * bool)%type.   (* (flag name, value it must have) *)
+(* flags (option fields, dry-run parameters, data conditions) are numbered by the extractor;
+   three numbers are fixed *)
+Definition flag := N.
+Definition F_dry_run : flag := 0%N.
+Definition F_set_append_only_is_false : flag := 1%N.   (* opts.set_append_only == Some(false) *)
+Definition F_set_append_only_is_true : flag := 2%N.    (* opts.set_append_only == Some(true) *)
+Definition cond := (flag * bool)%type.   (* (flag, value it must have) *)
 
 Record site := mk_site {
   s_kind : skind;
   s_ftype : option ftype;      (* literal FileType at the call, None = generic *)
   s_conds : list cond;         (* enclosing option / dry-run / data conditions *)
-  s_guarded : bool;            (* inside a callee that starts with its own unconditional append-only guard *)
-  s_where : string }.
+  s_guarded : bool }.          (* inside a callee that starts with its own unconditional append-only guard *)
 
 Record efacts := mk_efacts {
   f_guard : option (list cond);   (* the append-only guard: fires iff append_only /\ all conds *)
